@@ -106,6 +106,8 @@ func main() {
 		os.Exit(cmdReplay(os.Args[2:]))
 	case "tables":
 		os.Exit(cmdTables(os.Args[2:]))
+	case "sweep":
+		os.Exit(cmdSweep(os.Args[2:]))
 	case "list":
 		l, err := loadRepo(os.Args[2])
 		if err != nil {
@@ -229,3 +231,53 @@ func firstLines(s string, n int) string {
 	return strings.Join(l, " | ")
 }
 
+
+
+// cmdSweep: zero-annotation safety sweep. Every function of a package is executed symbolically with
+// unconstrained inputs and only obligations of the selected kinds are discharged; whatever is not discharged
+// is listed. A triage aid (most reports need a pre-condition, some are defects), not a check.
+func cmdSweep(args []string) int {
+	fs := flag.NewFlagSet("sweep", flag.ExitOnError)
+	kinds := fs.String("kinds", "assert", "obligation kinds (regexp)")
+	timeout := fs.Int("timeout", 5, "solver timeout (s)")
+	fs.Parse(args)
+	rest := fs.Args()
+	if len(rest) < 1 {
+		fmt.Fprintln(os.Stderr, "sweep [-kinds re] <pkg pattern> [name substring]")
+		return 2
+	}
+	l, err := loadRepo(rest[0])
+	if err != nil {
+		fmt.Fprintln(os.Stderr, err)
+		return 2
+	}
+	kre := regexp.MustCompile("^(" + *kinds + ")$")
+	var fns []*ssa.Function
+	for fn := range ssautil.AllFunctions(l.prog) {
+		p, n := relName(fn)
+		if p != l.pkgs[0].PkgPath || len(fn.Blocks) == 0 || strings.HasPrefix(n, "lemma") || strings.HasPrefix(n, "init") || strings.HasPrefix(n, "cut") {
+			continue
+		}
+		if len(rest) > 1 && !strings.Contains(n, rest[1]) {
+			continue
+		}
+		if fn.Synthetic != "" {
+			continue
+		}
+		fns = append(fns, fn)
+	}
+	sort.Slice(fns, func(i, j int) bool { return fns[i].String() < fns[j].String() })
+	for _, fn := range fns {
+		r := verifyFunction(l.prog, l.prog.Fset, l.cs, fn, VerifyOpts{Kinds: kre, Timeout: *timeout, Workers: 16, Tag: "sweep"})
+		for _, d := range r.Obligations {
+			if d.Ob.Cover || !kre.MatchString(d.Ob.Kind) || d.ok() {
+				continue
+			}
+			fmt.Printf("%-8s %s  (%s)\n", d.Res.Status, d.Ob.Name, d.Ob.Pos)
+		}
+		if r.Aborted != "" {
+			fmt.Printf("aborted  %s: %s\n", r.Func, r.Aborted)
+		}
+	}
+	return 0
+}
